@@ -11,7 +11,8 @@ EXTENDS Naturals, Sequences, FiniteSets, TLC, Json
 
 (* ---------- (1) negotiation ---------- *)
 Methods == {0, 1, 2, 128}                 \* none, gssapi, username/password, private
-Creds == {"valid", "wrongpass", "unknownuser", "emptyboth", "emptypass_user", "long255", "nonutf8"}
+Creds == {"valid", "wrongpass", "unknownuser", "emptyboth", "emptypass_user", "long255", "nonutf8",
+          "listed_emptypass", "listed_prefixpass", "listed_extendedpass"}   \* a listed user with "", a prefix, an extension of the password
 ValidCreds == {"valid", "emptypass_user"}   \* alice/secret and carol with an empty password are configured users
 RECURSIVE Perms(_)
 Perms(S) == IF S = {} THEN {<<>>} ELSE UNION {{<<x>> \o p : p \in Perms(S \ {x})} : x \in S}
